@@ -198,7 +198,7 @@ def tiny : Doc Nat :=
      [⟨50, [⟨0, [.free 0 65535, .raw 10 0, .raw 20 0, .stream 4 0, .raw 30 0]⟩], 6, none, (1, 0), none⟩],
      80, 0, 50⟩, ⟨(1, 0), none, none⟩⟩
 
-def PN : Params Nat := ⟨fun v => v != 13, fun _ => 0⟩
+def PN : Params Nat := ⟨fun v => v != 13, fun _ => 0, fun _ _ _ => 0⟩
 def L5 : Layout := ⟨fun _ => 5, fun _ => 7, fun _ => 3⟩
 
 /-- `tiny` is what loading its own bytes gives -/
